@@ -428,8 +428,22 @@ def check_C09(tier, seed):
             raise vlib.ToolFailure("; ".join(problems))
         return ws
 
+    # the playlist / playlist-entity TABLE API along every transition of the storage-layer model (MCV2Table), incl. entities of
+    # another database in the middle of a chain: ordered listings as sequences (TraceV2Table); the full run is part of C18's check
+    import tablecheck as _tb
+
+    def build_pl(wd, mc_stats):
+        ws, tcfg, stats, n, consts = _tb.build_pltable(wd, mc_stats, "quick", seed)
+        r = random.Random(seed * 3)
+        for w in ws:
+            w.scripts = r.sample(w.scripts, min(250 if tier == "quick" else 1500, len(w.scripts)))
+        return ws
+
+    pl_cfg = vlib.cfg_text("TSpec", {"ValidNames": {"a", "b"}, "InvalidNames": {"", "x;y"}, "Variant": "current", "MaxP": 3, "MaxE": 3,
+                                     "Tracks": {1, 2, 101}, "MaxOps": 0, "OpNames": {"a", "b", ""}}, postcondition="Accepted")
     return history_check(
         "C09", tier, seed, build_with_random,
+        also=[{"driver": "pltabledriver", "build": build_pl, "module": "TraceV2Table", "cfg": pl_cfg}],
         rule="2.x only: every transition of the bounded crate graph (create[_after] at first/middle/last position, "
              "set_parent, set_name, remove) and of the membership graph (add/remove/clear with 3 entries) is replayed; "
              "root_crates(), children() and crate.tracks() are compared as *sequences* with the abstract sibling / entry "
@@ -507,7 +521,7 @@ def check_C16(tier, seed):
 
     # (the playlist-table trace cfg only depends on constants that are fixed here)
     pl_cfg = vlib.cfg_text("TSpec", {"ValidNames": {"a", "b"}, "InvalidNames": {"", "x;y"}, "Variant": "current", "MaxP": 3, "MaxE": 3,
-                                     "Tracks": {1, 2}, "MaxOps": 0, "OpNames": {"a", "b", ""}}, postcondition="Accepted")
+                                     "Tracks": {1, 2, 101}, "MaxOps": 0, "OpNames": {"a", "b", ""}}, postcondition="Accepted")
     return history_check(
         "C16", tier, seed, build,
         also=[{"driver": "trackdriver", "build": build_tracks, "module": "TraceTrackFields", "cfg": _tc.track_cfg()},
